@@ -2,7 +2,7 @@
 
     Mirror of
       kit/check/check.go      Check.evaluate (snapshot of the checker list, one Check call per
-                              checker in registration order, overall = the LAST non-pass status,
+                              checker in registration order, overall = fail iff some result is not pass,
                               results sorted by Responses.Less = (status string, name))
       kit/check/helpers.go    ReadyGate (atomic latch; NamedPass / NamedFail "not ready")
       kit/check/response.go   Responses.Less
@@ -88,8 +88,11 @@ Fixpoint ins (x : chk) (l : list chk) : list chk :=
   end.
 Definition isort (l : list chk) : list chk := fold_left (fun acc x => ins x acc) l [].
 
-(** [if s := resp.Status(); s != StatusPass { overall = s }] *)
+(** [if s := resp.Status(); s != StatusPass { overall = StatusFail }]  (since the fix of finding
+    check-status-neither-pass-nor-fail; before it: [overall = s], see [overall_before_fix]) *)
 Definition overall (l : list chk) : N :=
+  fold_left (fun o c => if k_status c =? ST_PASS then o else ST_FAIL) l ST_PASS.
+Definition overall_before_fix (l : list chk) : N :=
   fold_left (fun o c => if k_status c =? ST_PASS then o else k_status c) l ST_PASS.
 
 Definition evaluate (l : list chk) : N * list chk := (overall l, isort l).
@@ -98,7 +101,8 @@ Definition evaluate (l : list chk) : N * list chk := (overall l, isort l).
 Record response := { r_code : N; r_status : N; r_message : N; r_checks : list chk }.
 (** /ready body status: 0 "ready", 1 "starting"; /health body status: the overall status *)
 
-Definition failing (l : list chk) : list chk := filter (fun c => k_status c =? ST_FAIL) l.
+(** failingChecks / firstFailureMessage: [c.Status() != check.StatusPass] *)
+Definition failing (l : list chk) : list chk := filter (fun c => negb (k_status c =? ST_PASS)) l.
 
 Definition ready_response (results : list chk) : response :=
   let (ov, res) := evaluate results in
@@ -158,15 +162,15 @@ Definition ready_ok (s : state) (r : response) : bool :=
        && forallb (fun c => existsb (chk_eqb c) (s_ready s)) (r_checks r).
 
 (** /health: 200 iff every health check passes, else 503 whose message is the message ("fail"
-    if it has none) of a failing check with the least name, i.e. the first failing entry of
-    the listed checks *)
+    if it has none) of a not-passing check that no other not-passing check precedes in the
+    order of the listed checks (status text, then name): for pass/fail checks the failing check
+    with the least name *)
 Definition msg_or_fail (c : chk) : N := if k_msg c =? M_EMPTY then M_FAIL else k_msg c.
-Definition min_name (l : list chk) : N := fold_right (fun c m => N.min (k_name c) m) (N.pow 2 62) l.
 Definition health_ok (s : state) (r : response) : bool :=
   if all_pass (s_health s) then (r_code r =? 200) && (r_message r =? M_HEALTHY)
   else let bad := not_passing (s_health s) in
        (r_code r =? 503)
-       && existsb (fun c => (k_name c =? min_name bad) && (msg_or_fail c =? r_message r)) bad.
+       && existsb (fun c => forallb (fun d => negb (less d c)) bad && (msg_or_fail c =? r_message r)) bad.
 Definition state_ok (ready : bool) (s : state) (r : response) : bool :=
   if ready then ready_ok s r else health_ok s r.
 
